@@ -81,6 +81,7 @@ def run(M, rec, tier, seed, k, n):
         CURRENT["built"] = built
         CURRENT["net_of_last_step"] = built.net
 
+    W.USER_KINDS["prob"] = 0.12  # user-defined origin / link kinds (README "Extensions") are networks too
     try:
         if tier == "quick":
             W.numpy_steps(M, rec, rng, 450, draws=3, opts_prob=0.15, before_case=on_case)
@@ -99,6 +100,7 @@ def run(M, rec, tier, seed, k, n):
             W.small_valid_steps(M, rec, rng, 4, k, n, before_case=on_case, seed=seed + 1, kinds_full=False, only_n=4)
             W.symbolic_param_steps(M, rec, rng, symvals, 150, before_case=on_case)
     finally:
+        W.USER_KINDS["prob"] = 0.0
         mon.uninstall()
     if k == 0:
         W.repo_tests(rec, [PROP])
